@@ -28,12 +28,14 @@ Theorem wedge_contains_itself : forall (point : Type) (occw : point -> point -> 
 Proof. exact C07_Wedge.wedge_contains_self. Qed.
 Print Assumptions wedge_contains_itself.
 
-(** the index walk: contract of its edge-free-cell shortcut (refuted as written) ------------ *)
-Theorem hasCrossingRelation_edge_free_branch_refuted :
-  exists a_cc ta tb b_ccs, edge_free_branch a_cc ta tb b_ccs = true /\ cc_matches a_cc ta = false.
-Proof. exact C07_Walk.edge_free_branch_refuted. Qed.
-Print Assumptions hasCrossingRelation_edge_free_branch_refuted.
+(** the index walk: contract of its edge-free-cell shortcut ------------------------------ *)
+Theorem hasCrossingRelation_edge_free_branch_contract : branch_contract edge_free_branch.
+Proof. exact C07_Walk.edge_free_branch_contract. Qed.
+Print Assumptions hasCrossingRelation_edge_free_branch_contract.
 
-Theorem hasCrossingRelation_edge_free_branch_repaired : branch_contract edge_free_branch_repaired.
-Proof. exact C07_Walk.edge_free_branch_repaired_contract. Qed.
-Print Assumptions hasCrossingRelation_edge_free_branch_repaired.
+(** finding Loop.Contains.edgeless-cell-target (fixed by /repo 42e42d2): the branch as it stood *)
+Theorem hasCrossingRelation_edge_free_branch_before_fix_refuted :
+  exists a_cc ta tb b_ccs,
+    edge_free_branch_before_42e42d2 a_cc ta tb b_ccs = true /\ cc_matches a_cc ta = false.
+Proof. exact C07_Walk.before_fix_refuted. Qed.
+Print Assumptions hasCrossingRelation_edge_free_branch_before_fix_refuted.
